@@ -219,6 +219,12 @@ const TOKENS: &[&str] = &[
     "-170141183460469231731687303715884105729", "x", "\r", "\u{b}", "\u{c}",
     // multi-byte chars whose continuation bytes are an ASCII whitespace/delimiter byte | 0x80, or a
     // Latin-1 space (0x85 NEL, 0xA0 NBSP): a byte-wise trim/strip that confuses them cuts inside a char
+    // exact MIN / MAX (and one beyond) of every integer width, leading zeros
+    "65535", "32767", "-32768", "32768", "-32769", "4294967295", "2147483647", "-2147483648", "2147483648",
+    "18446744073709551615", "9223372036854775807", "-9223372036854775808", "9223372036854775808",
+    "340282366920938463463374607431768211455", "170141183460469231731687303715884105727",
+    "-170141183460469231731687303715884105728", "170141183460469231731687303715884105728",
+    "127", "128", "-0", "0255", "00000256", "-00128", "000000000000000000000000000000000000000001",
     "à", "\u{a0}", "Å", "É", "Ê", "\u{8d}", "😅", "\u{2028}", "\u{85}", "ᄀ", "\u{ac}",
 ];
 
@@ -437,15 +443,21 @@ impl World for ParserWorld {
             text.push_str(t);
         }
         let len = text.len() as u64;
-        let base: u64 = match rng.below(10) {
+        let room = u32::MAX as u64 - len;
+        let base: u64 = match rng.below(14) {
             0..=4 => 0,
             5 => 1,
             6 => 7,
             7 => 1000,
             8 => rng.below(1 << 20),
-            _ => u32::MAX as u64 - len - *rng.pick(&[0u64, 1, 5]),
-        };
-
+            9 => room - *rng.pick(&[0u64, 1, 5]),
+            // regions where u32 arithmetic, sign or power-of-two boundaries could matter
+            10 => ((1u64 << 31) - len / 2).min(room) + rng.below(3),
+            11 => ((1u64 << *rng.pick(&[8u64, 16, 24, 31])) - rng.below(len + 2).min(1 << 7)).min(room),
+            12 => rng.below(room + 1),
+            _ => (1u64 << 31).min(room) + rng.below(1 << 20).min(room - (1u64 << 31).min(room)),
+        }
+        .min(room);
         // swarm: operation weights
         let one_sided = rng.chance(1, 5);
         let front_only = rng.chance(1, 2);
